@@ -713,6 +713,22 @@ impl<'a, 'c, P: StylesheetParser<'a>> ValueParser<'a, 'c, P> {
         let was_in_parentheses = parser.flags().in_parens();
         parser.flags_mut().set(ContextFlags::IN_PARENS, true);
 
+        // n.b. the flag must also be restored when parsing fails: callers such as
+        // `parse_declaration_or_buffer` recover from the error and keep parsing
+        let result = Self::parse_paren_expr_contents(parser, start, was_in_parentheses);
+
+        parser
+            .flags_mut()
+            .set(ContextFlags::IN_PARENS, was_in_parentheses);
+
+        result
+    }
+
+    fn parse_paren_expr_contents(
+        parser: &mut P,
+        start: usize,
+        was_in_parentheses: bool,
+    ) -> SassResult<Spanned<AstExpr>> {
         parser.expect_char('(')?;
         parser.whitespace()?;
         if !parser.looking_at_expression() {
